@@ -1,11 +1,11 @@
 package main
 
 import (
-	"math"
 	"crypto/aes"
 	"encoding/json"
 	"fmt"
 	"io"
+	"math"
 	"math/big"
 	"runtime"
 	"sort"
@@ -49,12 +49,28 @@ func byteTargets(f fkey) []byteTarget {
 	noKid := fkey{k: key.Key{iana.KeyParameterKty: 4}, secret: []byte{2}, nsize: 12}
 	vs := key.Verifiers{f, noKid}
 	return []byteTarget{
-		{"cose.VerifySign1Message", func(b []byte) { cose.VerifySign1Message[[]byte](f, b, nil); cose.VerifySign1Message[cwt.Claims](f, b, nil); cose.VerifySign1Message[any](f, b, nil) }},
-		{"cose.VerifySignMessage", func(b []byte) { cose.VerifySignMessage[[]byte](vs, b, nil); cose.VerifySignMessage[cwt.ClaimsMap](vs, b, nil) }},
-		{"cose.VerifyMac0Message", func(b []byte) { cose.VerifyMac0Message[[]byte](f, b, nil); cose.VerifyMac0Message[cwt.Claims](f, b, nil) }},
+		{"cose.VerifySign1Message", func(b []byte) {
+			cose.VerifySign1Message[[]byte](f, b, nil)
+			cose.VerifySign1Message[cwt.Claims](f, b, nil)
+			cose.VerifySign1Message[any](f, b, nil)
+		}},
+		{"cose.VerifySignMessage", func(b []byte) {
+			cose.VerifySignMessage[[]byte](vs, b, nil)
+			cose.VerifySignMessage[cwt.ClaimsMap](vs, b, nil)
+		}},
+		{"cose.VerifyMac0Message", func(b []byte) {
+			cose.VerifyMac0Message[[]byte](f, b, nil)
+			cose.VerifyMac0Message[cwt.Claims](f, b, nil)
+		}},
 		{"cose.VerifyMacMessage", func(b []byte) { cose.VerifyMacMessage[[]byte](f, b, nil); cose.VerifyMacMessage[any](f, b, nil) }},
-		{"cose.DecryptEncrypt0Message", func(b []byte) { cose.DecryptEncrypt0Message[[]byte](f, b, nil); cose.DecryptEncrypt0Message[cwt.Claims](f, b, nil) }},
-		{"cose.DecryptEncryptMessage", func(b []byte) { cose.DecryptEncryptMessage[[]byte](f, b, nil); cose.DecryptEncryptMessage[any](f, b, nil) }},
+		{"cose.DecryptEncrypt0Message", func(b []byte) {
+			cose.DecryptEncrypt0Message[[]byte](f, b, nil)
+			cose.DecryptEncrypt0Message[cwt.Claims](f, b, nil)
+		}},
+		{"cose.DecryptEncryptMessage", func(b []byte) {
+			cose.DecryptEncryptMessage[[]byte](f, b, nil)
+			cose.DecryptEncryptMessage[any](f, b, nil)
+		}},
 		{"cose.Sign1Message_UnmarshalCBOR", func(b []byte) {
 			m := &cose.Sign1Message[[]byte]{}
 			if m.UnmarshalCBOR(b) == nil {
@@ -76,7 +92,12 @@ func byteTargets(f fkey) []byteTarget {
 				}
 			}
 		}},
-		{"cose.SignMessage_Verify", func(b []byte) { m := &cose.SignMessage[any]{}; m.UnmarshalCBOR(b); m.Verify(vs, nil); m.Verify(nil, nil) }},
+		{"cose.SignMessage_Verify", func(b []byte) {
+			m := &cose.SignMessage[any]{}
+			m.UnmarshalCBOR(b)
+			m.Verify(vs, nil)
+			m.Verify(nil, nil)
+		}},
 		{"cose.Mac0Message_UnmarshalCBOR", func(b []byte) {
 			m := &cose.Mac0Message[[]byte]{}
 			if m.UnmarshalCBOR(b) == nil {
@@ -114,10 +135,31 @@ func byteTargets(f fkey) []byteTarget {
 			}
 		}},
 		{"cose.EncryptMessage_Decrypt", func(b []byte) { m := &cose.EncryptMessage[any]{}; m.UnmarshalCBOR(b); m.Decrypt(f, nil) }},
-		{"cose.Signature_UnmarshalCBOR", func(b []byte) { s := &cose.Signature{}; s.UnmarshalCBOR(b); s.Kid(); s.MarshalCBOR(); decodeInto[cose.Signature](b) }},
-		{"cose.Recipient_UnmarshalCBOR", func(b []byte) { r := &cose.Recipient{}; r.UnmarshalCBOR(b); r.MarshalCBOR(); decodeInto[cose.Recipient](b) }},
-		{"cose.KDFContext_UnmarshalCBOR", func(b []byte) { k := &cose.KDFContext{}; k.UnmarshalCBOR(b); k.MarshalCBOR(); decodeInto[cose.KDFContext](b) }},
-		{"cose.SuppPubInfo_UnmarshalCBOR", func(b []byte) { k := &cose.SuppPubInfo{}; k.UnmarshalCBOR(b); k.MarshalCBOR(); decodeInto[cose.SuppPubInfo](b) }},
+		{"cose.Signature_UnmarshalCBOR", func(b []byte) {
+			s := &cose.Signature{}
+			s.UnmarshalCBOR(b)
+			s.Kid()
+			s.MarshalCBOR()
+			decodeInto[cose.Signature](b)
+		}},
+		{"cose.Recipient_UnmarshalCBOR", func(b []byte) {
+			r := &cose.Recipient{}
+			r.UnmarshalCBOR(b)
+			r.MarshalCBOR()
+			decodeInto[cose.Recipient](b)
+		}},
+		{"cose.KDFContext_UnmarshalCBOR", func(b []byte) {
+			k := &cose.KDFContext{}
+			k.UnmarshalCBOR(b)
+			k.MarshalCBOR()
+			decodeInto[cose.KDFContext](b)
+		}},
+		{"cose.SuppPubInfo_UnmarshalCBOR", func(b []byte) {
+			k := &cose.SuppPubInfo{}
+			k.UnmarshalCBOR(b)
+			k.MarshalCBOR()
+			decodeInto[cose.SuppPubInfo](b)
+		}},
 		{"cose.Headers_UnmarshalCBOR", func(b []byte) { h := cose.Headers{}; h.UnmarshalCBOR(b); accessAll(key.CoseMap(h)) }},
 		{"cose.HeadersFromBytes", func(b []byte) { h, _ := cose.HeadersFromBytes(b); accessAll(key.CoseMap(h)) }},
 		{"cose.RemoveCBORTag", func(b []byte) { cose.RemoveCBORTag(b) }},
@@ -545,6 +587,15 @@ func streamNoPanic(c *ctx) {
 			k3 := cloneKey(keys[i])
 			delete(k3, l)
 			keys = append(keys, k3)
+			// byte-string members (scalars, coordinates, symmetric keys, Base IV): every length that is the size of some
+			// key, scalar, seed, expanded key or coordinate anywhere, and their neighbours
+			if li, ok := l.(int); ok && li < 0 || l == iana.KeyParameterBaseIV {
+				for _, n := range []int{15, 16, 17, 24, 31, 32, 33, 47, 48, 49, 56, 57, 63, 64, 65, 66, 67, 96, 128, 132, 133} {
+					k4 := cloneKey(keys[i])
+					k4[l] = c.r.bytes(n)
+					keys = append(keys, k4)
+				}
+			}
 		}
 	}
 	keys = append(keys, key.Key{}, key.Key{1: nil}, key.Key{"1": 4}, key.Key{int64(1): 4, 3: 5}, key.Key{1: 4, -1: nil}, key.Key{1: 2, -1: 1, -2: nil, -3: nil}, key.Key{1: 1, -1: 6, -4: nil})
